@@ -1,4 +1,4 @@
-import PysphVerif.Lemmas.ControllerLive2
+import PysphVerif.Lemmas.ControllerStarve
 /-!
 # C18 — the solver controller never loses a command or a wake-up
 
@@ -167,30 +167,145 @@ theorem plock_mutual_exclusion (cfg : Cfg) (hw : cfg.waitPred = true) (hn : cfg.
   have := (h.owner u hu).symm.trans (h.owner v hv)
   exact Option.some.inj this
 
-/-- **No deadlock in the pause fragment of the repaired protocol.**  For any
-number of interface threads running well-formed programs over `get`, blocking
-`set`, `pause_on_next`, `wait`, `cont` (balanced pause sections, `wait`/`cont`
-only inside), in every reachable state under every schedule some thread can
-take a step; in particular the states of `lost_wakeup_reachable` and
-`lock_order_deadlock_reachable` (same programs!) are unreachable after the
-repair. -/
-theorem no_deadlock_pause_fragment (ps : List (List Op))
-    (hwf : ∀ p ∈ ps, WFp false p = true) (s : State)
+/-! ## the solver thread never raises; lock ownership -/
+
+/-- For every protocol variant, program and schedule the solver thread never
+reaches `crashed`: `self.queue_dict[lock_id]` always finds its entry, and
+`self.queue_lock_map[lock_id].release()` always finds the lock, held (the
+two places where `run_queued_commands` could raise and end the solver thread). -/
+theorem solver_never_raises (cfg : Cfg) (progs : Tid → List Op) (s : State)
+    (hr : Reachable cfg progs s) :
+    s.spc ≠ SPc.crashed ∧
+    (∀ id ∈ s.queue, (lookupCmd s.qdict id).isSome = true) ∧
+    (∀ ctx id, s.spc = SPc.runRelC ctx id → id ∈ s.cLocked ∧ id ∈ s.lockmap) := by
+  have hS := reachable_safe hr
+  have hI := (reachable_inv hr).1
+  refine ⟨hS.alive, hS.qd, ?_⟩
+  intro ctx id hspc
+  exact hS.unrel id (execIds_sub_queued hI (hI.relc ctx id hspc)) (Or.inr (by rw [hspc]; rfl))
+
+/-- `get_result(k)` gets past the per-command lock only after the solver has
+RELEASED it (not merely run the command): the solver's `release()` never
+races with a `get_result` holding the same lock. -/
+theorem get_result_holds_lock_only_after_release (cfg : Cfg) (progs : Tid → List Op) (s : State)
+    (hr : Reachable cfg progs s) (t : Tid) (k : Nat) (hk : holding (s.th t).pc = some k)
+    (ctx : Ctx) : s.spc ≠ SPc.runRelC ctx k := by
+  intro e
+  exact (reachable_safe hr).hold t k hk (by rw [e]; rfl)
+
+/-- Repaired protocol: the dispatch lock, `res_lock` and `qlock` are each held
+by at most one thread, exactly at the program counters where the code holds
+them (both directions), for every program and schedule. -/
+theorem lock_ownership (progs : Tid → List Op) (s : State)
+    (hr : Reachable Cfg.fixed progs s) :
+    (∀ u, ownsD (s.th u).pc = true ↔ s.dlock = some u) ∧
+    (∀ u, ownsRes (s.th u).pc = true → s.resLock = some u) ∧
+    (sOwnsRes s.spc = true → s.resLock = some 0) ∧
+    (∀ v, s.resLock = some v → (v = 0 ∧ sOwnsRes s.spc = true) ∨ ownsRes (s.th v).pc = true) ∧
+    (∀ u, ownsQ (s.th u).pc = true → s.qOwner = some u) ∧
+    (sOwnsQ s.spc = true → s.qOwner = some 0) ∧
+    (∀ v, s.qOwner = some v → (v = 0 ∧ sOwnsQ s.spc = true) ∨ ownsQ (s.th v).pc = true) ∧
+    (∀ v, s.pOwner = some v →
+      (v = 0 ∧ (s.spc = SPc.ntaP ∨ s.spc = SPc.relP)) ∨ holdsP (s.th v).pc = true) := by
+  have h := reachable_locks hr
+  exact ⟨fun u => ⟨h.ld.d1 u, h.ld.d2 u⟩, h.lr.r1, h.lr.r2, h.lr.r3, h.lq.q1, h.lq.q2, h.lq.q3,
+    h.lp.p3⟩
+
+/-- A held per-command lock belongs to the dispatching thread that is about
+to queue the task, or to a `get_result` call that got past it, or else the
+task is queued and the solver has not released its lock yet. -/
+theorem command_lock_ownership (progs : Tid → List Op) (s : State)
+    (hr : Reachable Cfg.fixed progs s) (k : Nat) (hk : k ∈ s.cLocked) :
+    (∃ v c, (s.th v).pc = IPc.qAcqQ c k) ∨ (∃ v, holding (s.th v).pc = some k) ∨
+    (k ∈ s.queuedLog ∧ (k ∉ execIds s ∨ ∃ ctx, s.spc = SPc.runRelC ctx k)) := by
+  apply Classical.byContradiction
+  intro hc
+  simp only [not_or, not_exists] at hc
+  obtain ⟨h1, h2, h3⟩ := hc
+  obtain ⟨hq, hx⟩ := (reachable_locks hr).co.cown k hk (fun v c => h1 v c) (fun v => h2 v)
+  apply h3
+  refine ⟨hq, ?_⟩
+  rcases hx with hx | hx
+  · exact Or.inl hx
+  · right
+    cases hspc : s.spc <;> simp [hspc, relcId] at hx
+    rename_i ctx id
+    exact ⟨ctx, by rw [hx]⟩
+
+/-- Repaired `dispatch`/`wait_for_cmd`: the solver goes to sleep in
+`qlock.wait()` only with an empty queue, and while it sleeps un-notified the
+queue is empty unless the thread holding `qlock` is the dispatcher that has
+just appended and is about to `notify_all()` — the wake-up of a command queued
+while the solver is paused cannot be lost (cf.
+`get_result_while_paused_deadlock_reachable` for the pinned code). -/
+theorem dispatch_wakeup_not_lost (progs : Tid → List Op) (s : State)
+    (hr : Reachable Cfg.fixed progs s) :
+    (s.spc = SPc.waitQ → s.queue = []) ∧
+    (s.spc = SPc.blocked → s.qWaiting = true) ∧
+    (s.spc = SPc.blocked → s.queue ≠ [] →
+      ∃ u id, s.qOwner = some u ∧ (s.th u).pc = IPc.qNtaQ id) := by
+  have h := (reachable_locks hr).lq
+  refine ⟨h.wq, h.bw, ?_⟩
+  intro hb hne
+  apply Classical.byContradiction
+  intro hc
+  apply hne
+  apply h.nq hb
+  intro u hu
+  cases hpc : (s.th u).pc <;> simp only [isQNta]
+  exact absurd ⟨u, _, hu, hpc⟩ hc
+
+/-! ## the repaired protocol never deadlocks — all operations -/
+
+/-- **No deadlock, repaired protocol, all operations.**  Any number of
+interface threads; programs are arbitrary lists over `get`, blocking `set`,
+queued (non-blocking) commands, `get_result` of ARBITRARY task ids (own,
+foreign, never issued, already fetched), `pause_on_next`, `wait`, `cont` in any
+order and nesting — the only requirement (`WF`) is that no program ENDS inside
+a pause section (after its last `pause_on_next` a thread eventually calls
+`cont`).  Then in every reachable state, under every schedule, some thread can
+take a step.  In particular `get_result` between `pause_on_next` and `cont`
+(the deadlock `get_result_while_paused_deadlock_reachable` of the pinned code)
+is fine after the repair. -/
+theorem no_deadlock (ps : List (List Op)) (hwf : ∀ p ∈ ps, WF false p = true) (s : State)
     (hr : Reachable Cfg.fixed (progsOf ps) s) :
     ∃ t, t ≤ ps.length ∧ enabled Cfg.fixed s t = true :=
-  frag_not_stuck (reachable_f hwf hr) (reachable_w rfl rfl hr) (reachable_pinv hr)
+  full_not_stuck (reachable_live hwf hr) (reachable_w rfl rfl hr) (reachable_pinv hr)
+    (reachable_locks hr) (reachable_safe hr) (reachable_inv hr).1
 
 /-- …and whenever the solver itself is blocked, it is an *interface* thread
 that can move (so a blocked solver is always released by its controllers). -/
 theorem blocked_solver_has_enabled_controller (ps : List (List Op))
-    (hwf : ∀ p ∈ ps, WFp false p = true) (s : State)
+    (hwf : ∀ p ∈ ps, WF false p = true) (s : State)
     (hr : Reachable Cfg.fixed (progsOf ps) s) (hb : enabled Cfg.fixed s 0 = false) :
     ∃ t, 1 ≤ t ∧ t ≤ ps.length ∧ enabled Cfg.fixed s t = true := by
-  obtain ⟨t, ht, he⟩ := no_deadlock_pause_fragment ps hwf s hr
+  obtain ⟨t, ht, he⟩ := no_deadlock ps hwf s hr
   refine ⟨t, ?_, ht, he⟩
   cases t with
   | zero => rw [hb] at he; cases he
   | succ k => exact Nat.succ_le_succ (Nat.zero_le _)
+
+/-- The requirement cannot be dropped: a program that ends inside a pause
+section leaves the solver asleep for good with nobody left to wake it. -/
+theorem unbalanced_pause_blocks_solver :
+    let sched := [1, 1, 1, 1, 0, 0, 0, 0, 0, 0, 0, 0]
+    let s := run Cfg.fixed (init (progsOf [[Op.pause]])) sched
+    WF false [Op.pause] = false ∧
+    runs Cfg.fixed (init (progsOf [[Op.pause]])) sched = true ∧ s.spc = SPc.blocked ∧
+    (s.th 1).pc = IPc.idle ∧ (s.th 1).prog = [] ∧
+    enabled Cfg.fixed s 0 = false ∧ enabled Cfg.fixed s 1 = false := by
+  decide
+
+/-- the pause fragment (programs over `get`, blocking `set`, balanced
+`pause_on_next … wait … cont`) as a special case -/
+theorem no_deadlock_pause_fragment (ps : List (List Op))
+    (hwf : ∀ p ∈ ps, WFp false p = true) (s : State)
+    (hr : Reachable Cfg.fixed (progsOf ps) s) :
+    ∃ t, t ≤ ps.length ∧ enabled Cfg.fixed s t = true :=
+  no_deadlock ps (fun p hp => wf_of_wfp false p (hwf p hp)) s hr
+
+example : WF false [Op.pause, Op.wait, Op.queue Cmd.probe, Op.getMine 0, Op.getResult 7,
+    Op.cont, Op.queue (Cmd.set 3), Op.getResult 0, Op.wait, Op.cont] = true := by decide
 
 example : WFp false [Op.pause, Op.wait, Op.get, Op.cont, Op.setNow 3] = true := by decide
 
@@ -270,16 +385,126 @@ example : ∃ s, Reachable Cfg.fixed (progsOf [[Op.pause, Op.wait, Op.cont]]) s 
   ⟨run Cfg.fixed (oneThread [Op.pause, Op.wait, Op.cont]) [1, 1, 1, 1, 0, 0, 0, 0, 0],
    reachable_run _ Reachable.init (by decide), by decide⟩
 
-/-! ## liveness of the repaired protocol — statement only
+/-! ## progress: a ranking function, and termination under a helpful scheduler -/
 
-The full claim "no interleaving leaves the solver or an interface thread
-blocked forever" for the repaired protocol INCLUDING queued commands and
-`get_result`.  Proved above for the pause fragment (`no_deadlock_pause_fragment`);
-with queued commands it is NOT proved here (it needs the ownership invariant of
-`res_lock` and the per-command locks as well, and that the solver never raises);
-that part is sampled on the real code by the harness (every well-formed
-program must finish under a fair continuation of every sampled schedule) and
-its three counterexamples for the pinned protocol are the theorems above. -/
+/-- **Ranking function.**  `muIface` (remaining primitives of all interface
+threads), `muSolver` (32·|queue| + the solver's distance to its next pop / next
+`paused.update`), `muWait` (position inside the `while …: plock.wait()` loops),
+ordered lexicographically (`MuLt`).  In every reachable state of well-formed
+programs that is not final, some enabled step strictly decreases the rank: any
+step of any enabled interface thread does, and when no interface thread can
+move the solver can, and its step does. -/
+theorem some_enabled_step_decreases_rank (ps : List (List Op))
+    (hwf : ∀ p ∈ ps, WF false p = true) (s : State)
+    (hr : Reachable Cfg.fixed (progsOf ps) s) (hnf : ¬ Final ps.length s) :
+    ∃ t s' evs, t ≤ ps.length ∧ step Cfg.fixed s t = some (s', evs) ∧ MuLt ps.length s' s :=
+  exists_decreasing_step hwf hr hnf
+
+/-- every step of an interface thread decreases the rank (whoever is scheduled) -/
+theorem interface_step_decreases_rank (ps : List (List Op)) (s s' : State) (t : Tid)
+    (evs : List Ev) (hr : Reachable Cfg.fixed (progsOf ps) s) (ht1 : 1 ≤ t)
+    (htn : t ≤ ps.length) (hs : step Cfg.fixed s t = some (s', evs)) : MuLt ps.length s' s := by
+  have ht0 : t ≠ 0 := Nat.ne_of_gt ht1
+  have hst : stepIface Cfg.fixed s t = some (s', evs) := by simpa [step, ht0] using hs
+  obtain ⟨hoth, hcase⟩ := iface_rank (reachable_w (cfg := Cfg.fixed) rfl rfl hr).waiting ht0 hst
+  rcases hcase with hlt | ⟨heq, hwlt, hsame, hmu⟩
+  · left
+    apply sumTo_lt
+    · intro j _ _
+      by_cases hj : j = t
+      · subst hj; exact Nat.le_of_lt hlt
+      · exact Nat.le_of_eq (hoth j hj)
+    · exact ⟨t, ht1, htn, hlt⟩
+  · right
+    refine ⟨?_, Or.inr ⟨hmu, ?_⟩⟩
+    · apply sumTo_congr
+      intro j _ _
+      by_cases hj : j = t
+      · subst hj; exact heq
+      · exact hoth j hj
+    · apply sumTo_lt
+      · intro j _ _
+        by_cases hj : j = t
+        · subst hj; exact Nat.le_of_lt hwlt
+        · rw [hsame j hj]; exact Nat.le_refl _
+      · exact ⟨t, ht1, htn, hwlt⟩
+
+/-- **Nobody is ever blocked for good.**  From EVERY reachable state of
+well-formed programs (any number of threads, all operations) there is a finite
+continuation after which every interface thread has returned from its last
+call and every command ever queued has been executed exactly once.  (So there
+is no partial deadlock either — no subset of threads can be stuck while the
+solver keeps spinning.) -/
+theorem can_always_finish (ps : List (List Op)) (hwf : ∀ p ∈ ps, WF false p = true) (s : State)
+    (hr : Reachable Cfg.fixed (progsOf ps) s) :
+    ∃ sched, (∀ t ∈ sched, t ≤ ps.length) ∧ runs Cfg.fixed s sched = true ∧
+      (∀ t, 1 ≤ t → t ≤ ps.length →
+        ((run Cfg.fixed s sched).th t).pc = IPc.idle ∧ ((run Cfg.fixed s sched).th t).prog = []) ∧
+      (run Cfg.fixed s sched).queuedLog = execIds (run Cfg.fixed s sched) ∧
+      (execIds (run Cfg.fixed s sched)).Nodup := by
+  obtain ⟨sched, h1, h2, h3, h4, h5⟩ := can_finish hwf s hr
+  refine ⟨sched, h1, h2, h3, ?_⟩
+  have hq := queue_exactly_once Cfg.fixed (progsOf ps) _ (reachable_run sched hr h2)
+  rw [h4, h5] at hq
+  simp only [List.append_nil] at hq
+  exact ⟨hq.1, hq.2.2⟩
+
+/-! ## termination under strong fairness -/
+
+/-- **Fair termination.**  Any number of interface threads running well-formed
+programs (all operations), ANY infinite schedule `σ : Nat → Tid` (an entry
+naming a thread that is not enabled is a no-op) that is strongly fair — every
+thread that is enabled infinitely often is scheduled, while enabled,
+infinitely often.  Then the run reaches a state in which every interface
+thread has returned from its last call and every command ever queued has been
+executed exactly once.  Proof: the pair (`muIface`, `muWait2`) never increases
+and strictly decreases with every interface step, so interface steps are
+finitely many; afterwards, if from some point on no interface thread were ever
+enabled, the solver would always be enabled and each of its steps would
+decrease `muSolver` (`stuck_idle_all_done` excludes the one idle edge), which
+fairness forbids; so some interface thread is enabled infinitely often and
+fairness gives it one more step — contradiction. -/
+theorem terminates_under_strong_fairness (ps : List (List Op))
+    (hwf : ∀ p ∈ ps, WF false p = true) (σ : Nat → Tid) (hfair : StronglyFair ps σ) :
+    ∃ i, (∀ t, 1 ≤ t → t ≤ ps.length →
+        ((trace ps σ i).th t).pc = IPc.idle ∧ ((trace ps σ i).th t).prog = []) ∧
+      (trace ps σ i).queuedLog = execIds (trace ps σ i) ∧ (execIds (trace ps σ i)).Nodup := by
+  obtain ⟨i, h3, h4, h5⟩ := fair_terminates hwf σ hfair
+  refine ⟨i, h3, ?_⟩
+  have hq := queue_exactly_once Cfg.fixed (progsOf ps) _ (trace_reachable ps σ i)
+  rw [h4, h5] at hq
+  simp only [List.append_nil] at hq
+  exact ⟨hq.1, hq.2.2⟩
+
+/-- Weak fairness (only *continuously* enabled threads must be scheduled) is
+NOT enough, in the model as with CPython's unfair locks: after thread 1 has
+reached `with self.qlock:` inside `dispatch` (three steps), let the solver run
+alone for any number `k` of rounds.  Every solver step is enabled; at the
+start of each round thread 1 is enabled, two solver steps later (the solver is
+inside `with self.qlock`) it is not — so it is never continuously enabled, the
+schedule "solver only" is weakly fair, and thread 1 never moves. -/
+theorem weak_fairness_is_not_enough (k : Nat) :
+    let s0 := run Cfg.fixed (init (progsOf [[Op.queue Cmd.probe]])) [1, 1, 1]
+    let sk := run Cfg.fixed s0 (rounds k)
+    runs Cfg.fixed (init (progsOf [[Op.queue Cmd.probe]])) [1, 1, 1] = true ∧
+    runs Cfg.fixed s0 (rounds k) = true ∧ (sk.th 1).pc = IPc.qAcqQ Cmd.probe 0 ∧
+    ¬ Final 1 sk ∧ enabled Cfg.fixed sk 1 = true ∧
+    enabled Cfg.fixed (run Cfg.fixed sk [0, 0]) 1 = false ∧
+    runs Cfg.fixed sk [0, 0, 0, 0, 0] = true := by
+  intro s0 sk
+  have hidle : Idle s0 := ⟨by decide, by decide, by decide, by decide⟩
+  have hpc0 : (s0.th 1).pc = IPc.qAcqQ Cmd.probe 0 := by decide
+  obtain ⟨e1, e2⟩ := idle_rounds k hidle
+  have hsk : sk = { s0 with count := s0.count + k } := e1
+  have hidlek : Idle sk := by rw [hsk]; exact ⟨hidle.spc, hidle.q, hidle.queue, hidle.pause⟩
+  have hpck : (sk.th 1).pc = IPc.qAcqQ Cmd.probe 0 := by rw [hsk]; exact hpc0
+  obtain ⟨p1, p2, p3⟩ := idle_parked hidlek (t := 1) (by decide) hpck
+  refine ⟨by decide, e2, hpck, ?_, p1, p2, p3⟩
+  intro hf
+  have := (hf.1 1 (Nat.le_refl _) (Nat.le_refl _)).1
+  rw [hpck] at this; cases this
+
+/-! ## the statement announced earlier (`no_deadlock_statement`) now holds -/
 
 /-- per thread: `pause_on_next … [wait] … cont` balanced, `wait`/`cont` only
 inside, `get_result` only of own earlier tasks, once each -/
@@ -303,5 +528,29 @@ def no_deadlock_statement : Prop :=
     ∀ s, Reachable Cfg.fixed (progsOf ps) s →
       (∃ t, 1 ≤ t ∧ t ≤ n ∧ ¬ ((s.th t).pc = IPc.idle ∧ (s.th t).prog = [])) →
       ∃ t, t ≤ n ∧ enabled Cfg.fixed s t = true
+
+theorem wf_of_wellFormedProg : ∀ (b : Bool) (nq : Nat) (got : List Nat) (p : List Op),
+    WellFormedProg b nq got p = true → WF b p = true
+  | b, nq, got, [] => by simp [WellFormedProg, WF]
+  | b, nq, got, op :: r => by
+    intro h
+    cases op <;>
+      simp only [WellFormedProg, WF, Bool.and_eq_true, Bool.not_eq_true', decide_eq_true_eq,
+        decide_eq_false_iff_not] at h ⊢
+    · exact wf_of_wellFormedProg b nq got r h
+    · exact wf_of_wellFormedProg b nq got r h
+    · exact wf_of_wellFormedProg b (nq + 1) got r h
+    · cases h
+    · exact wf_of_wellFormedProg b nq _ r h.2
+    · exact wf_of_wellFormedProg true nq got r h.2
+    · obtain ⟨hb, h⟩ := h; subst hb; exact wf_of_wellFormedProg true nq got r h
+    · exact wf_of_wellFormedProg false nq got r h.2
+
+/-- the announced statement, a special case of `no_deadlock` (which needs
+neither the restriction on `get_result` ids nor an unfinished thread) -/
+theorem no_deadlock_statement_holds : no_deadlock_statement := by
+  intro n ps hn hwf s hr _
+  subst hn
+  exact no_deadlock ps (fun p hp => wf_of_wellFormedProg false 0 [] p (hwf p hp)) s hr
 
 end PysphVerif.C18
